@@ -32,15 +32,16 @@ cp $SRC/${M}_demo_test.go $WT/$DDIR/zz_${M}_demo_test.go
 ( cd $WT && go test $RACE -vet=off -count=1 -run "$RUN" ./$DDIR/ >/tmp/confirm_mut_$$.log 2>&1 ); MUT_RC=$?
 echo "demo on HEAD rc=$HEAD_RC (want 0); suite with change rc=$SUITE_RC (want 0); demo with change rc=$MUT_RC (want != 0)"
 OUT=/verif/replays/trymutant_$$.log
-/verif/tools/trymutant.sh $PROP $SRC/$M.diff > $OUT 2>&1
+CHK=${CHECK_PROP:-$PROP}
+/verif/tools/trymutant.sh $CHK $SRC/$M.diff > $OUT 2>&1
 CHECK_RC=$(grep "check exit:" $OUT | awk '{print $3}')
-echo "check $PROP on the change: exit $CHECK_RC"
+echo "check $CHK on the change: exit $CHECK_RC"
 if [ $HEAD_RC -eq 0 ] && [ $SUITE_RC -eq 0 ] && [ $MUT_RC -ne 0 ]; then
-  D=/verif/seeded/${PROP}_$M; mkdir -p $D
+  D=/verif/seeded/${PROP}_${STORE_AS:-$M}; mkdir -p $D
   cp $SRC/$M.diff $D/patch.diff; cp $SRC/${M}_demo_test.go $D/demo_test.go; cp $SRC/$M.md $D/notes.md 2>/dev/null
-  python3 - "$D" "$PROP" "$M" "$CHECK_RC" <<'PY'
+  python3 - "$D" "$PROP" "$M" "$CHECK_RC" "$CHK" <<'PY'
 import json, sys, re
-d, prop, m, rc = sys.argv[1:5]
+d, prop, m, rc, chk = sys.argv[1:6]
 notes = open(d + "/notes.md").read() if __import__("os").path.exists(d + "/notes.md") else ""
 json.dump({
   "breaks_property": prop,
@@ -48,7 +49,8 @@ json.dump({
   "needs_to_manifest": notes[:1500],
   "confirmed": {"demo_passes_on_unchanged_HEAD": True, "builds_and_existing_suite_passes_with_change": True, "demo_fails_with_change": True,
                 "how": "tools/confirm_mutant.sh in a scratch worktree under /tmp (removed afterwards)"},
-  "check_result": {"command": "./bin/check %s --tier quick (VERIF_SEED=1), change applied to /repo with git apply and undone with git checkout" % prop,
+  "check_result": {"command": "./bin/check %s --tier quick (VERIF_SEED=1), change applied to /repo with git apply and undone with git checkout" % chk,
+                   "checked_by": chk,
                    "exit": int(rc) if rc.isdigit() else rc, "detected": rc == "1"},
 }, open(d + "/meta.json", "w"), indent=1)
 PY
